@@ -38,6 +38,9 @@ def zoo_task(t):
     out = {"n": 0, "fails": [], "skipped": []}
     for name in names:
         e = Z[name]
+        if e.has("illconditioned"):
+            out["skipped"].append(name + ": inverse amplifies by 1e10 (finite differences are no reference)")
+            continue
         if e.has("umnn") or e.has("discrete"):
             out["skipped"].append(name + (": UMNN (third-party autograd Function, float32 internals)" if e.has("umnn") else ": discrete distribution"))
             continue
@@ -98,8 +101,8 @@ def zoo_task(t):
                 continue
             if e.has("batch_coupled_train") and mode == "train" and result == "inverse":
                 continue  # BatchNorm offers no inverse in training mode
-            if wrt == "params" and not any(True for _ in m.parameters()):
-                continue
+            if wrt == "params" and (not any(True for _ in m.parameters()) or e.has("badscale")):
+                continue  # (parameters of magnitude 1e-5: a finite-difference step of 1e-6 is no reference)
             if result == "sample_and_log_prob" and (not e.has("sample") or e.has("nonreparam") or (e.has("batch_coupled_train") and mode == "train")):
                 continue  # no sampler, or one that is not reparameterised by design (mixture components, Bernoulli)
             key = (mode, uc, hist, result, wrt, frozen)
@@ -220,6 +223,46 @@ def zoo_task(t):
     return out
 
 
+def wide_f32_cases():
+    """Wide layers in single precision (as constructed): determinants of 1e-56 / 1e+56 are outside the float32 range,
+    their logarithms and the gradients of those logarithms are ordinary numbers - finite, and equal to the
+    double-precision twin's."""
+    warnings.filterwarnings("ignore")
+    import torch
+    from nflows import transforms as TR
+
+    n, fails = 0, []
+    for name, build in (("LULinear(80), diagonal 0.2", lambda: TR.LULinear(80, identity_init=True)), ("LULinear(80), diagonal 5", lambda: TR.LULinear(80, identity_init=True)),
+                        ("SVDLinear(80), diagonal 0.2", lambda: TR.SVDLinear(80, num_householder=4, identity_init=True)), ("OneByOneConvolution(80), diagonal 5", lambda: TR.OneByOneConvolution(80, identity_init=True))):
+        torch.manual_seed(9)
+        m = build()
+        target = 0.2 if "0.2" in name else 5.0
+        pname = "unconstrained_upper_diag" if hasattr(m, "unconstrained_upper_diag") else "unconstrained_diagonal"
+        with torch.no_grad():
+            getattr(m, pname).copy_(torch.log(torch.expm1(torch.full((80,), target - m.eps))))
+        m64 = build().double()
+        m64.load_state_dict({k: v.double() if v.dtype.is_floating_point else v for k, v in m.state_dict().items()})
+        shape = (3, 80, 1, 2) if "Convolution" in name else (3, 80)
+        x = torch.randn(shape, generator=torch.Generator().manual_seed(4))
+        for mode in ("train", "eval"):
+            n += 1
+            res = {}
+            for tag, mod, xin in (("float32", m, x), ("float64", m64, x.double())):
+                mod.train(mode == "train")
+                for p_ in mod.parameters():
+                    p_.grad = None
+                y, lad = mod(xin)
+                (lad.sum() + 0.01 * y.sum()).backward()
+                res[tag] = (lad.detach(), getattr(mod, pname).grad.detach())
+            l32, g32 = res["float32"]
+            l64, g64 = res["float64"]
+            if not bool(torch.isfinite(l32).all() and torch.isfinite(g32).all()):
+                fails.append({"name": name, "mode": mode, "cache": False, "hist": "fresh", "result": "forward", "wrt": "params", "seed": 0, "clause": "nonfinite_gradient", "wide_f32": True, "detail": "%s in float32 (%s mode): log-abs-det %s, gradient of the diagonal parameters finite: %s (float64: log-abs-det %.4f, all finite)" % (name, mode, l32.tolist()[:2], bool(torch.isfinite(g32).all()), float(l64[0]))})
+            elif not torch.allclose(g32.double(), g64, rtol=1e-3, atol=1e-4):
+                fails.append({"name": name, "mode": mode, "cache": False, "hist": "fresh", "result": "forward", "wrt": "params", "seed": 0, "clause": "wrong_gradient", "wide_f32": True, "detail": "%s in float32 (%s mode): gradient of the diagonal parameters differs from the float64 twin's by %.3g" % (name, mode, float((g32.double() - g64).abs().max()))})
+    return n, fails
+
+
 def main(run, replay=None):
     run.rule = (
         "cases = (zoo model, mode, cache, preceding call, result, leaf) enumerated by TLC from GradFlow.tla, each with a "
@@ -232,6 +275,11 @@ def main(run, replay=None):
     from vcore import zoo as _z
 
     names = [e.name for e in _z.entries()]
+    if replay and replay["case"].get("wide_f32"):
+        for f in wide_f32_cases()[1]:
+            if f["name"] == replay["case"]["name"]:
+                run.violation({"name": f["name"], "clause": f["clause"], "wrt": f["wrt"]}, "replayed: " + f["detail"], replay["case"])
+        return
     if replay:
         c = replay["case"]
         out = zoo_task(([c["name"]], cases, c["seed"]))
@@ -245,6 +293,9 @@ def main(run, replay=None):
         run.evaluations += out["n"]
         fails += out["fails"]
         skipped += out["skipped"]
+    nw, fw = wide_f32_cases()
+    run.evaluations += nw
+    fails += fw
     run.extra["skipped"] = sorted(set(skipped))
     for cs in cases:
         if str(cs["wrt"]) != "inputs":
